@@ -176,13 +176,85 @@ pub fn run(ctx: &Ctx) -> Result<(), String> {
         nontrivial.fetch_add((m.len() * 8 + 768) as u64, Relaxed);
     });
 
+    // verifier over every message length 0..=4096 and several chunkings: the valid triple, a bit
+    // flipped in the first / middle / last byte of the message, the signature of every shorter
+    // prefix at a 256-byte boundary (and of len-1), and a message extended by one byte
+    {
+        let lseeds = seeds_subset(ctx.seed, ctx.tier.pick(2, 8));
+        let verify_chunked = |pk: &[u8], chunks: &[&[u8]], sig: &[u8]| -> bool {
+            catch(|| {
+                let mut v = MsgVerifier::new(pk);
+                for c in chunks {
+                    v.update(c);
+                }
+                v.verify(sig)
+            })
+            .unwrap_or(false)
+        };
+        par_for(lseeds.len() * 4097, 64, |k, _| {
+            let (seed, _) = lseeds[k / 4097];
+            let len = k % 4097;
+            let pk = crypto::public_key(&seed);
+            let m = canonical_message(len);
+            let sig = crypto::sign(&seed, &m);
+            let chunkings: Vec<Vec<&[u8]>> = {
+                let mut v: Vec<Vec<&[u8]>> = vec![vec![&m[..]]];
+                for p in [1usize, 1023, 1024, 1025] {
+                    if p < len {
+                        v.push(vec![&m[..p], &m[p..]]);
+                    }
+                }
+                if len > 0 {
+                    v.push(m.chunks(1000).collect());
+                    v.push(m.chunks(7).collect());
+                }
+                v
+            };
+            for (ci, ch) in chunkings.iter().enumerate() {
+                evals.fetch_add(1, Relaxed);
+                if !verify_chunked(&pk, ch, &sig) {
+                    ctx.violation("rejects-valid", "verifier", "length", json!({"kind":"verify-length","seed":hex(&seed),"len":len,"chunking":ci,"chunk_lens":ch.iter().map(|c| c.len()).collect::<Vec<_>>(),"direct":true,"subject":false}));
+                }
+            }
+            let mut wrong = |what: &str, msg: &[u8], sig: &[u8], extra: Value| {
+                evals.fetch_add(1, Relaxed);
+                nontrivial.fetch_add(1, Relaxed);
+                let want = crypto::verify(&pk, msg, sig);
+                for ch in [vec![msg], msg.chunks(1000).collect::<Vec<_>>()] {
+                    let got = verify_chunked(&pk, &ch, sig);
+                    if got != want {
+                        ctx.violation(if got { "accepts-invalid" } else { "rejects-valid" }, "verifier", what, json!({"kind":"verify-length","seed":hex(&seed),"len":len,"case":what,"detail":extra,"direct":want,"subject":got}));
+                        break;
+                    }
+                }
+            };
+            if len > 0 {
+                for at in [0, len / 2, len - 1] {
+                    let mut x = m.clone();
+                    x[at] ^= 0x10;
+                    wrong("message-bit", &x, &sig, json!({"byte": at}));
+                }
+                // the signature of a proper prefix must not verify the whole message
+                let mut cuts: Vec<usize> = (0..len).step_by(256).collect();
+                cuts.push(len - 1);
+                for c in cuts {
+                    let psig = crypto::sign(&seed, &m[..c]);
+                    wrong("prefix-signature", &m, &psig, json!({"prefix_len": c}));
+                }
+            }
+            let mut ext = m.clone();
+            ext.push(0x5a);
+            wrong("extended-message", &ext, &sig, json!({"extended_by": 1}));
+        });
+    }
+
     ctx.cov("evaluations", json!(evals.load(Relaxed)));
     ctx.cov("distinct_nontrivial", json!(nontrivial.load(Relaxed)));
     ctx.cov("seeds", json!(seeds.len()));
     ctx.cov("sampled_seeds", json!(seeds.iter().filter(|s| s.1).count()));
     ctx.cov("exhaustive", json!(true));
     ctx.cov("bound", json!({"message_length_max":4096,"chunkings_n_max":maxn,"sequence_len_max":4,"sequence_alphabet":5,"long_sequence":32}));
-    ctx.cov("rule", json!(format!("per seed of a structured alphabet ({} seeds: zero, ff, RFC 8032 vectors, single-bit, single-byte-value, seeded random): every message length 0..=4096 signed back-to-back on one signer; two-chunk splits at 1/1023/1024/1025/len-1; all 2^(n-1) chunkings for n<={}; all sequences of length<=4 over 5 messages {{0,1,64,1024,4096 bytes}} on fresh signers; one 32-message sequence. Oracle: signature bytes == ed25519-dalek one-shot signature of that message alone. Verifier: valid triples and every single-bit corruption of message/signature/key vs direct verification (panic == reject). Non-trivial = a case with >=2 chunks or >=2 messages on one signer, or a corrupted triple.", seeds.len(), maxn)));
+    ctx.cov("rule", json!(format!("per seed of a structured alphabet ({} seeds: zero, ff, RFC 8032 vectors, single-bit, single-byte-value, seeded random): every message length 0..=4096 signed back-to-back on one signer; two-chunk splits at 1/1023/1024/1025/len-1; all 2^(n-1) chunkings for n<={}; all sequences of length<=4 over 5 messages {{0,1,64,1024,4096 bytes}} on fresh signers; one 32-message sequence. Oracle: signature bytes == ed25519-dalek one-shot signature of that message alone. Verifier: valid triples and every single-bit corruption of message/signature/key vs direct verification (panic == reject); and for every message length 0..=4096 in 5-7 chunkings: the valid triple, a flipped bit in the first/middle/last byte, the signature of every 256-aligned proper prefix and of len-1, the message extended by one byte. Non-trivial = a case with >=2 chunks or >=2 messages on one signer, or a corrupted triple.", seeds.len(), maxn)));
     ctx.sample(json!({"kind":"chunking","n":5,"mask":"0b1010","chunks":[2,2,1]}));
     ctx.sample(json!({"kind":"sequence","seq":[4,0,2,1],"lengths":[4096,0,64,1]}));
     ctx.sample(json!({"kind":"verify","corruption":"signature-bit","bit":255}));
@@ -203,6 +275,34 @@ pub fn replay_case(c: &Value) -> Result<Option<String>, String> {
         let want = crypto::verify(&pk, &m, &sig);
         let got = subject_verify(&pk, &m, &sig);
         return Ok(if want != got { Some(format!("direct={} subject={}", want, got)) } else { None });
+    }
+    if c["kind"] == "verify-length" {
+        let seed: [u8; 32] = crypto::unhex(c["seed"].as_str().ok_or("seed")?).try_into().map_err(|_| "seed")?;
+        let len = c["len"].as_u64().ok_or("len")? as usize;
+        let pk = crypto::public_key(&seed);
+        let mut m = canonical_message(len);
+        let mut sig = crypto::sign(&seed, &m);
+        match c["case"].as_str() {
+            Some("message-bit") => m[c["detail"]["byte"].as_u64().unwrap_or(0) as usize] ^= 0x10,
+            Some("prefix-signature") => sig = crypto::sign(&seed, &m[..c["detail"]["prefix_len"].as_u64().unwrap_or(0) as usize]),
+            Some("extended-message") => m.push(0x5a),
+            _ => {}
+        }
+        let want = crypto::verify(&pk, &m, &sig);
+        for chunk in [usize::MAX, 1000, 7, 1024] {
+            let got = catch(|| {
+                let mut v = MsgVerifier::new(&pk);
+                for ch in m.chunks(chunk.min(m.len().max(1))) {
+                    v.update(ch);
+                }
+                v.verify(&sig)
+            })
+            .unwrap_or(false);
+            if got != want {
+                return Ok(Some(format!("direct={} subject={} (chunks of {})", want, got, chunk)));
+            }
+        }
+        return Ok(None);
     }
     let seed: [u8; 32] = crypto::unhex(c["seed"].as_str().ok_or("seed")?).try_into().map_err(|_| "seed")?;
     let case = &c["case"];
